@@ -9,6 +9,8 @@ if status == 'fixed':
     e["commit"] = subprocess.check_output(['git', '-C', '/repo', 'log', '--format=%h', '-1'], text=True).strip()
 e["what"] = what
 e["witness"] = witness
+# the one-line form asked for by the interface
+e["line"] = f"fixed: property={prop} {e['commit']} {what}" if status == 'fixed' else f"KNOWN-FINDING: property={prop} {what}"
 d["findings"].append(e)
 json.dump(d, open(p, 'w'), indent=1)
 print("recorded", e)
